@@ -499,6 +499,10 @@ func (vc *VC) Query(hyp, goal Term, nAsserts int, wantModel bool) string {
 	vc.mu.Lock()
 	defer vc.mu.Unlock()
 	vc.analyse()
+	limit := len(vc.infos)
+	if nAsserts >= 0 && nAsserts < limit {
+		limit = nAsserts
+	}
 	rel := map[string]bool{}
 	vc.symbolsOf(hyp.S, rel)
 	vc.symbolsOf(goal.S, rel)
@@ -506,7 +510,7 @@ func (vc *VC) Query(hyp, goal Term, nAsserts int, wantModel bool) string {
 	changed := true
 	for changed {
 		changed = false
-		for i := range vc.infos {
+		for i := range vc.infos[:limit] {
 			if included[i] {
 				continue
 			}
